@@ -314,6 +314,8 @@ impl C20 {
             // each once with in-canvas and once with far-out-of-canvas sizes
             bytes.extend_from_slice(b"G#O100,100,40:\nG#Q100,100,40,20:\nG#K100,100,40,0,90:\nG#J100,100,40,20,0,90:\nG#V100,100,40,0,90:\nG#Y100,100,40,20,0,90:\n");
             bytes.extend_from_slice(b"G#U5,5,60,40,1:\nG#Z5,5,30,30:\nG#z3,1,1,30,5,9,40:\nG#f3,1,1,30,5,9,40:\nG#F20,20:\nG#D50,50:\n");
+            // poly line / fill with one and two values more, and one fewer, than the point count announces
+            bytes.extend_from_slice(b"G#f3,1,1,30,5,9,40,7:\nG#f3,1,1,30,5,9,40,7,8:\nG#f3,1,1,30,5,9:\nG#z3,1,1,30,5,9,40,7:\nG#z3,1,1,30,5,9,40,7,8:\nG#z3,1,1,30,5,9:\n");
             bytes.extend_from_slice(b"G#O100,100,9999:\nG#Q50,50,9999,3:\nG#Q50,50,3,9999:\nG#K10,10,9999,0,360:\nG#V10,10,9999,0,360:\nG#U0,0,9999,9999,1:\nG#F0,0:\n");
         }
         bytes.extend_from_slice(b"G#s0:\n");
